@@ -282,6 +282,11 @@ func streamC17(c *Ctx) {
 	dm := Domain{IntsWithin2p53: true, NoNegTimes: true}
 	for _, be := range backendsAll {
 		im := NewImpl(be, c.Scratch)
+		// the ranges the planner derives from two constraints on one field (shared bounds, nil bounds), end to end
+		if !sameFieldCells(c, dr, im, be) {
+			im.Destroy()
+			return
+		}
 		for cn := 0; cn < nColl; cn++ {
 			g := NewGen(c.Rng, dm)
 			h := NewHistGen(g, 1, 1)
